@@ -387,7 +387,7 @@ Definition run_server_gen (loop : bool -> config -> N -> list conn_event -> list
       end
   | _ => bad_input
   end.
-Definition run_server := run_server_gen accept_loop_063.
+Definition run_server := run_server_gen accept_loop.
 Definition run_server_063 := run_server_gen accept_loop_063.
 
 Definition run_server_spec (x : xval) : xval :=
